@@ -23,27 +23,28 @@ type Spec struct {
 }
 
 type JobSpec struct {
-	ID        string            `json:"id"`
-	Package   string            `json:"package"`
-	Func      string            `json:"func"`
-	Params    map[string]int    `json:"params"`
-	Math      bool              `json:"math"`
-	NoIfConv  bool              `json:"noifconv"`
-	Sched     string            `json:"sched"`
-	Preempt   int               `json:"preempt"`
-	MaxPaths  int               `json:"max_paths"`
-	MaxInstrs int64             `json:"max_instrs"`
-	Unwind    int               `json:"unwind"`
-	SplitCap  int               `json:"split_cap"`
-	MaxViol   int               `json:"max_violations"`
-	TimeoutS  int               `json:"timeout_s"`
-	Witnesses int               `json:"witnesses"`
-	KnownIDs  []string          `json:"known_ids"`
-	Solver    []string          `json:"solver"`
-	InitAllow []string          `json:"init_allow"`
-	Models    map[string]string `json:"models"`
-	Trace     bool              `json:"trace"`
-	SolverLog string            `json:"solver_log"`
+	ID         string            `json:"id"`
+	Package    string            `json:"package"`
+	Func       string            `json:"func"`
+	Params     map[string]int    `json:"params"`
+	Math       bool              `json:"math"`
+	NoIfConv   bool              `json:"noifconv"`
+	Sched      string            `json:"sched"`
+	Preempt    int               `json:"preempt"`
+	MaxPaths   int               `json:"max_paths"`
+	MaxInstrs  int64             `json:"max_instrs"`
+	Unwind     int               `json:"unwind"`
+	SplitCap   int               `json:"split_cap"`
+	MaxViol    int               `json:"max_violations"`
+	TimeoutS   int               `json:"timeout_s"`
+	Witnesses  int               `json:"witnesses"`
+	KnownIDs   []string          `json:"known_ids"`
+	Solver     []string          `json:"solver"`
+	InitAllow  []string          `json:"init_allow"`
+	Models     map[string]string `json:"models"`
+	Trace      bool              `json:"trace"`
+	SolverLog  string            `json:"solver_log"`
+	OneShotMin int               `json:"oneshot_min"`
 }
 
 type JobOut struct {
@@ -127,7 +128,7 @@ func main() {
 			job := interp.Job{
 				Package: js.Package, Func: js.Func, Params: js.Params, Math: js.Math, NoIfConv: js.NoIfConv,
 				Sched: js.Sched, Preempt: js.Preempt, Witnesses: js.Witnesses, KnownIDs: js.KnownIDs,
-				Solver: js.Solver, InitAllow: js.InitAllow, Models: js.Models, Trace: js.Trace, SolverLog: js.SolverLog,
+				Solver: js.Solver, InitAllow: js.InitAllow, Models: js.Models, Trace: js.Trace, SolverLog: js.SolverLog, OneShotMin: js.OneShotMin,
 			}
 			job.Limits = interp.Limits{MaxPaths: js.MaxPaths, MaxInstrs: js.MaxInstrs, Unwind: js.Unwind,
 				SplitCap: js.SplitCap, MaxViolations: js.MaxViol}
